@@ -771,6 +771,34 @@ class Emitter:
         walk(node)
         return bool(found)
 
+    def has_effect_scrutinee(self, node):
+        """is there an `if` / `if let` whose condition / scrutinee itself mutates something (`if let Some(x) = q.remove(i)`)?"""
+        found = []
+
+        def mutating(e):
+            cur = e
+            while cur[0] == "mcall":
+                if self.p.mut_method(cur[2], cur[1]) is not None or self.p.self_call_mut(cur) is not None:
+                    return True
+                cur = cur[1]
+            return False
+
+        def walk(n):
+            if isinstance(n, tuple):
+                if n and n[0] == "iflet" and mutating(n[2]):
+                    found.append(n)
+                if n and n[0] == "if" and mutating(n[1]):
+                    found.append(n)
+                if n and n[0] == "closure":
+                    return
+                for x in n:
+                    walk(x)
+            elif isinstance(n, list):
+                for x in n:
+                    walk(x)
+        walk(node)
+        return bool(found)
+
     def alias_open(self, al, env):
         """register the alias, return the `let` that introduces it"""
         g, tgt = al
@@ -1150,7 +1178,7 @@ class Emitter:
                          value=lambda ast, env2: "(" + ", ".join([self.expr(ast, env2)] + [ident(w) for w in ws]) + ")")
                 text = seq(self, list(blk[1]), list(env), K, "; ", tail=blk[2])
                 return [self.let("(" + ", ".join([self.pat(s[1])] + [ident(w) for w in ws]) + ")", "(" + text + ")")]
-            if rhs[0] in ("if", "iflet", "match", "block") and self.has_alias(rhs):
+            if rhs[0] in ("if", "iflet", "match", "block") and (self.has_alias(rhs) or self.has_effect_scrutinee(rhs)):
                 ws = self.assigned(rhs, [v for v in env if v not in self.pat_vars(s[1])])
                 if ws:
                     K = Cont(normal=lambda env2: self.fail("branch without a value", rhs), ret=None, brk=None,
@@ -1209,6 +1237,15 @@ class Emitter:
                 return self.hoist(e, env)[0]
             if e[0] == "call" and e[1][0] == "path" and e[1][1] == ["drop"]:
                 return []          # dropping a guard / entry reference: mutations were written through already
+            if e[0] == "withret":
+                # a `with` closure in statement position whose body `return`s: the return ends the closure
+                blk = e[1]
+                ws = self.assigned(blk, env)
+                if not ws:
+                    return []
+                K = Cont(normal=lambda env2: self.tup(ws), ret=lambda v, env2: self.tup(ws), value=None)
+                items = list(blk[1]) + ([("expr", blk[2])] if blk[2] is not None else [])
+                return [self.let(self.tup(ws), "(" + seq(self, items, list(env), K, "; ") + ")")]
             if e[0] == "iflet" and e[4] is None and e[2][0] == "mcall" and e[2][2] == "get_mut" and len(e[2][4]) == 1 \
                     and e[1][0] == "pts" and e[1][1] == ["Some"] and e[1][2][0][0] == "pid":
                 # `if let Some(x) = map.get_mut(k) { …mutate x… }`: x is a reference INTO the map — write it back
@@ -1711,6 +1748,8 @@ class PureProfile(BaseProfile):
             return ("RustLite.retain", False)
         if name == "pop_back" and (recv is None or kind == "deque"):
             return ("RustLite.popBack", True)
+        if name == "pop_front" and (recv is None or kind == "deque"):
+            return ("RustLite.popFront", True)
         if name == "clear" and (recv is None or kind in ("map", "deque")):
             return ("RustLite.clearAll", False)
         if name == "insert" and (recv is None or kind == "map"):
@@ -1888,6 +1927,10 @@ class PureProfile(BaseProfile):
             return "(" + self.fn_call(name, ["self"] + [em.expr(a, env) for a in args]) + ")"
         R = lambda: em.expr(recv, env)
         A_ = lambda i: em.expr(args[i], env)
+        if name == "iter" and not args and kind == "map":
+            return f"(RustLite.values {R()})"          # DashMap::iter(): the entries (the translated code reads their values only)
+        if name == "value" and not args:
+            return R()                                  # `entry.value()` of a DashMap iterator item
         if name in ("iter", "clone", "to_string", "to_owned", "into_iter", "as_str", "collect", "copied", "cloned") and not args:
             return R()
         if name in GUARD_METHODS and not args:
@@ -2040,11 +2083,11 @@ UTIL_FILES = [
      ["handle_entry_limit_eviction", "insert", "increment_frequency", "get", "clear", "insert_result", "insert_with_memory"]),
     ("Thread", "cachelito-core/src/thread_local_cache.rs", "RustLite.ThreadCache K V F",
      {"self.cache": "map", "self.order": "deque", "self.frequency_weight": "optf64", "self.stats": "stats"},
-     ["move_to_end", "increment_frequency", "remove_key", "remove_key_with_order", "handle_entry_limit_eviction", "insert", "get", "insert_result"]),
+     ["move_to_end", "increment_frequency", "remove_key", "remove_key_with_order", "handle_entry_limit_eviction", "insert", "get", "insert_result", "insert_with_memory"]),
     ("Async", "cachelito-core/src/async_global_cache.rs", "RustLite.AsyncCache K V F",
      {"self.cache": "map", "self.order": "deque", "self.frequency_weight": "optf64", "self.stats": "stats"},
      ["find_min_frequency_key", "find_arc_eviction_key", "find_tlru_eviction_key", "is_already_key_inserted",
-      "handle_entry_limit_eviction", "insert", "get"]),
+      "handle_entry_limit_eviction", "insert", "get", "insert_with_memory"]),
 ]
 
 
